@@ -1337,6 +1337,22 @@ class Folder:
             return self.c_np_hstack([a[0]], {})
         raise Refuse("concatenate axis")
 
+    def c_np_tile(self, a, kw):
+        x, reps = (a + [None])[:2] if len(a) >= 2 else (a[0], kw.get("reps"))
+        if isinstance(x, (list, tuple)):
+            x = Arr(list(x))
+        if isinstance(x, Arr) and len(x.shape) == 1 and isinstance(reps, int) and not isinstance(reps, bool) and reps >= 0 and not (set(kw) - {"reps"}):
+            return Arr(list(x.data) * reps)
+        raise Refuse("np.tile form")
+
+    def c_np_repeat(self, a, kw):
+        x, reps = (a + [None])[:2] if len(a) >= 2 else (a[0], kw.get("repeats"))
+        if isinstance(x, (list, tuple)):
+            x = Arr(list(x))
+        if isinstance(x, Arr) and len(x.shape) == 1 and isinstance(reps, int) and not isinstance(reps, bool) and reps >= 0 and not (set(kw) - {"repeats"}):
+            return Arr([v for v in x.data for _ in range(reps)])
+        raise Refuse("np.repeat form")
+
     def c_np_sort(self, a, kw):
         x = a[0]
         if isinstance(x, Arr) and len(x.shape) == 1 and all(is_num(v) for v in x.data) and not kw and len(a) == 1:
